@@ -751,6 +751,35 @@ theorem C10.ellipse_iq_eq (ellipe : ℝ → ℝ) (a b : ℝ) :
     Ellipse.iq ellipe a b = Min.min (iq2 (Ellipse.area a b) (Ellipse.perimeter ellipe a b)) 1 := by
   simp only [Ellipse.iq, Scalar.min_real, Scalar.lit, Scalar.ofNat_real, Nat.cast_one]
 
+/-- **how the code computes the quotient**: from the AREA and the PERIMETER, `min(4π·(πab)/(4·max·E(e²))², 1)` — not
+from the eccentricity.  (Harness: the model's value at `Float` is compared with the implementation relative to itself, so
+an implementation that recovers `b/a` as `√(1 − e²)` from the rounded eccentricity is a model/implementation
+disagreement on needles.) -/
+theorem C10.ellipse_iq_def (ellipe : ℝ → ℝ) (a b : ℝ) :
+    Ellipse.iq ellipe a b
+      = Min.min (4 * Real.pi * (Real.pi * a * b) / (4 * Max.max a b * ellipe (Ellipse.ellipeArg a b)) ^ 2) 1 := by
+  rw [ellipse_iq_eq, perimeter_eq]
+  simp only [iq2, Ellipse.area, Scalar.lit, Scalar.sqr, Scalar.ofNat_real, Nat.cast_ofNat, Scalar.pi_real, pow_two]
+
+/-- over ℝ the same quotient is `π² √(1 − e²) / (4 E(e²)²)` with `e` the eccentricity (the "scale-free" form): the two
+differ by ROUNDING only (`1 − e²` cancels for needles), which is why the oracle compares `iq` relative to itself -/
+theorem C10.ellipse_iq_eccentricity_form (ellipe : ℝ → ℝ) (a b : ℝ) (ha : 0 < a) (hb : 0 < b)
+    (hE : ellipe (Ellipse.ellipeArg a b) ≠ 0) :
+    iq2 (Ellipse.area a b) (Ellipse.perimeter ellipe a b)
+      = Real.pi ^ 2 * Real.sqrt (1 - Ellipse.eccentricity a b ^ 2) / (4 * ellipe (Ellipse.ellipeArg a b) ^ 2) := by
+  have hM : 0 < Max.max a b := lt_max_of_lt_left ha
+  have hm : 0 < Min.min a b := lt_min ha hb
+  have hs : Real.sqrt (1 - Ellipse.eccentricity a b ^ 2) = Min.min a b / Max.max a b := by
+    rw [eccentricity_sq a b ha hb, sub_sub_cancel, ← div_pow, Real.sqrt_sq (by positivity)]
+  have hab : a * b = Min.min a b * Max.max a b := (min_mul_max a b).symm
+  rw [hs, perimeter_eq]
+  simp only [iq2, Ellipse.area, Scalar.lit, Scalar.sqr, Scalar.ofNat_real, Nat.cast_ofNat, Scalar.pi_real]
+  rw [mul_assoc Real.pi a b, hab]
+  have hpi := Real.pi_ne_zero
+  field_simp
+
+example : (0 : ℝ) < 1000 ∧ (0 : ℝ) < 1 / 1000 := by norm_num
+
 /-- the perimeter is at least `π(a+b)` (Jensen on the arc-length integrand) -/
 theorem C10.perimeter_ge (ellipe : ℝ → ℝ) (hE : IsEllipe ellipe) (a b : ℝ) (ha : 0 < a) (hb : 0 < b) :
     Real.pi * (a + b) ≤ Ellipse.perimeter ellipe a b := by
